@@ -258,6 +258,8 @@ def run_one(workdir, idx, rnd, mode, ct):
     truth = []
     for ck, num in rec.codes.items():
         fn = vrec.R.funcs.get(ck)
+        if ck in vrec.R.unresolvable:
+            continue                       # no ground truth: the property is about resolvable functions
         truth.append(f"({common.coq_N(num)}, {common.coq_opt(common.coq_N(rec.funcnum(fn)) if fn is not None else None)})")
     # ground truth of entry values per frame (types of the values bound to the named parameters at entry)
     entries = []
@@ -276,7 +278,7 @@ def run_one(workdir, idx, rnd, mode, ct):
     stats = {"events": len(events), "frames": len(rec.frames), "logged": len(impl), "rate": rate, "k": k,
              "filter": use_filter, "rejected": sorted(f"{n}@{l}" for n, l in rejected), "crashed": crashed, "errors": rec.errors[:3],
              "twin": twin is not None, "twin_one_file_admitted": only_file is not None, "many_live": many, "gens": src.count("yield"), "awaits": src.count("await Susp"), "residue": len(residue)}
-    return {"term": term, "stats": stats, "src": src if idx < 2 else None, "prog": name}
+    return {"term": term, "stats": stats, "src": src if (idx < 2 or os.environ.get("VERIF_DEBUG")) else None, "prog": name}
 
 
 BATCH_SEED = 1
